@@ -122,6 +122,12 @@ Theorem C13_impl_eq_spec_partial_old_code : forall (R : cring) (eqb : R -> R -> 
 Proof. intros R eqb Heq U inp m Hm He Hp. split. exact (convert_old_ok R eqb inp He Hp).
   intros t. exact (impl_eq_spec_old R eqb Heq U inp m t Hm He). Qed.
 Print Assumptions C13_impl_eq_spec_partial_old_code.
+(* one long-lived simulator: over any history of set_circuit / queries (failing queries included), from any state
+   of the inner simulator, each query is answered as by a fresh simulator on the circuit set last *)
+Theorem C13_session_history_independent : forall (R : cring) (eqb : R -> R -> bool) (h : list (pop R)) (s : psim R) cur,
+  ps_upol s = upol_of R cur -> prun eqb s h = pspec eqb cur h.
+Proof. exact session_history_independent. Qed.
+Print Assumptions C13_session_history_independent.
 (* the executed list of amplitudes is that function on every output *)
 Theorem C13_executed_amplitudes : forall (R : cring) (eqb : R -> R -> bool) (U : mat R) m (inp : pinput R) ts,
   impl_amps eqb U m inp ts = map (impl_amp eqb U m inp) ts.
